@@ -29,14 +29,17 @@ package codingconv
 
 //@ func isUtf8
 //@   sweep C01
-//@   props C13
+//@   props C13 C04
 //@   ensures[accepts-valid-utf8] V(data, 0) ==> result
+//@   ensures[C04,accepts-ascii] forall(k, 0, len(data), data[k] < 128) ==> result
 //@   loop 0 invariant 0 <= i && i <= len(data) && (V(data, 0) ==> V(data, i))
 //@   loop 1 invariant 0 <= j && j <= num - 1 && num > 1 && i - j - 1 >= 0 && i - j - 1 < len(data) && i <= len(data)
 //@                    && (V(data, 0) ==> V(data, i - j - 1) && num == lo8(data[i - j - 1]))
 //@ end
 
 //@ func ConvertStrToUtf8
-//@   props C13
+//@   props C13 C04
 //@   ensures[utf8-unaltered] V(str, 0) ==> result == str
+//@   ensures[C04,ascii-unaltered] forall(k, 0, len(str), str[k] < 128) ==> result == str
+//@   assigns nothing
 //@ end
